@@ -231,3 +231,35 @@ Proof.
   split; [exact ex_G_parsed|]. split; [exact ex_H3_parsed|]. split; [exists 1%N; simpl; auto|]. split; [exact ex_order_enumerates|].
   intros Hsub. specialize (Hsub 3%N). simpl in Hsub. intuition discriminate.
 Qed.
+
+(* ------------------------------------------------------------------ the order premise on partner-less product atoms is necessary *)
+(** CH3Br + OH- >> CH3OH + Br- + [Na+:8] + [K+:9]: two product atoms without reactant partner.  Exchanging their
+    numbers (a renumbering that fixes every reactant atom) exchanges their canonical numbers 4 and 5. *)
+Definition ex_H2 : mgraph :=
+  LG [(1%N, GN 70%N false 3 0 None 1); (7%N, GN 82%N false 1 0 None 7); (2%N, GN 17013%N false 0 (-1) None 2);
+      (8%N, GN 20068%N false 0 1 None 8); (9%N, GN 78%N false 0 1 None 9)] [(1%N, 7%N, 2%Z)].
+Definition ex_p89 : N -> N := transp 8 9.
+Definition ex_out1 := canonicalise_with (canon_rebuild ex_order ex_G) ex_H2.
+Definition ex_out2 := canonicalise_with (canon_rebuild ex_order ex_G) (set_amap (relabel ex_p89 ex_H2)).
+Definition label_in (r : option (mgraph * list (N * N) * mgraph)) (n : N) : option N :=
+  match r with Some (_, _, Hc) => option_map g_el (label Hc n) | None => None end.
+Theorem partnerless_order_refuted :
+  exists (G H : mgraph) (order : list N) (p : N -> N),
+    parsed G /\ enumerates order G /\ (forall a b, p a = p b -> a = b) /\ (forall n, In n (node_ids G) -> p n = n) /\
+    exists Gc1 pr1 Hc1 Gc2 pr2 Hc2,
+      canonicalise_with (canon_rebuild order G) H = Some (Gc1, pr1, Hc1) /\
+      canonicalise_with (canon_rebuild order G) (set_amap (relabel p H)) = Some (Gc2, pr2, Hc2) /\
+      option_map g_el (label Hc1 4%N) <> option_map g_el (label Hc2 4%N).
+Proof.
+  exists ex_G, ex_H2, ex_order, ex_p89.
+  split; [exact ex_G_parsed|]. split; [exact ex_order_enumerates|].
+  split.
+  { intros a b. unfold ex_p89, transp.
+    destruct (N.eqb_spec a 8), (N.eqb_spec a 9), (N.eqb_spec b 8), (N.eqb_spec b 9); lia. }
+  split; [intros n I; simpl in I; destruct I as [<-|[<-|[<-|[]]]]; reflexivity|].
+  destruct ex_out1 as [[[Gc1 pr1] Hc1]|] eqn:E1; [|vm_compute in E1; discriminate].
+  destruct ex_out2 as [[[Gc2 pr2] Hc2]|] eqn:E2; [|vm_compute in E2; discriminate].
+  exists Gc1, pr1, Hc1, Gc2, pr2, Hc2.
+  split; [exact E1|]. split; [exact E2|].
+  vm_compute in E1. vm_compute in E2. inversion E1; subst. inversion E2; subst. vm_compute. discriminate.
+Qed.
